@@ -21,7 +21,7 @@ EXTENDS Trace_Engine, Indexing
 XCell(idx) == <<ses.label, idx, SubSeq(idx, Len(ses.fin) + 1, Len(idx))>>
 XV         == Verdict(ses.fin, ses.ninf, Ev.expr)
 XCovered(v) == {XCell(v.cells[q]) : q \in 1..Len(v.cells)}
-IsZeroCell(idx) == idx \in ToSet(ses.zeros)
+IsZeroCell(idx) == idx \in SeqSet(ses.zeros)
 
 ReqGoal == CellsGoal(XCovered(XV))
 TReqX == More /\ Ev.t = "reqx" /\ XV.ok /\ UserRequest(ReqGoal) /\ Adv
